@@ -2,13 +2,16 @@ import KinModel.Drv.SchemaJson
 import KinModel.Drv.C01
 import KinModel.Schema.Spec
 import KinModel.Schema.Defaults
+import KinModel.C12.ErrObject
 open Lean
 namespace KinModel.Drv.C12
 open KinModel.Drv KinModel.Schema
 
-/-- field, pointer, quoted value (the reason fragments are C19's) -/
+/-- field, pointer, quoted value (the reason fragments are C19's); `reobs`: the pointers the object model shows for the
+further observations the run makes on the same error (`reobsSeq`: JSONPointer, Error, Unwrap, JSONPointer, ConvertErrors, JSONPointer) -/
 def errJsonLoc (e : Err) : Json :=
-  Json.mkObj ([("field", Json.str e.field), ("pointer", jstrs (e.pointer.map tokStr))] ++
+  Json.mkObj ([("field", Json.str e.field), ("pointer", jstrs (e.pointer.map tokStr)),
+               ("reobs", Json.arr ((observe true e.rpath reobsSeq).1.map (fun p => jstrs (p.map tokStr))).toArray)] ++
               (match e.value with | some v => [("value", fromJ v)] | none => []))
 
 def outJson (inj : Bool) (v : J) (o : Res × J) : Json :=
@@ -49,7 +52,8 @@ def handle (j : Json) : Json :=
     (if inj && (fromJ d.2).compress != (fromJ m.2).compress then ["dflt.after.differs.by.mode"] else []) ++
     (if getBool j "xcheck" then ["xcheck"] else []) ++
     (if inj && s.dfltUnderNot then ["dflt.under.not"] else []) ++
-    (if m.1.errs.any (fun e => e.field == roErr.field) then ["err.readWriteOnly"] else [])
+    (if m.1.errs.any (fun e => e.field == roErr.field) then ["err.readWriteOnly"] else []) ++
+    (if m.1.errs.any (fun e => e.rpath.length ≥ 2 && e.rpath != e.rpath.reverse) then ["err.reobserved.deep"] else [])
   jobj [("model", jobj [("dflt", outJson inj v d), ("multi", outJson inj v m), ("failfast", outJson inj v f), ("ffmulti", outJson inj v fm),
                         ("xbad", Json.bool xbad)]),
         ("spec", if inj then jobj [("agree", Json.bool true)] else jobj [("sat", Json.bool sp)]),
